@@ -6,8 +6,33 @@ PROP = 'C13'
 ASPECTS = {'valid', 'values', 'members'}
 
 
+def typed_declaration_in_every_world():
+    """the typed overload addDependency<Master, Dependents...>() declared anew in every world of the process (worlds alive together,
+    and a world built after another one was destroyed): each of them gives the master's dependents (world_driver `probe`)"""
+    import os, emcmp
+    drv, err = vlib.build_driver('world_driver')
+    if err:
+        return None
+    lines = ['new', 'probe 0', 'newdefault', 'probe 1', 'probe 0', 'del 0', 'new', 'probe 2', 'del 1', 'del 2', 'newshared', 'probe 3']
+    io, _ = emcmp.run_driver(drv, emcmp.scripts_text([('typed_dep', lines)]), os.path.join(vlib.BUILD, 'work', PROP + '-w'))
+    for name, blocks in emcmp.parse(io):
+        for i, b in enumerate(blocks):
+            r = (b['tags'].get('R') or ['R'])[0].split()
+            if b['crash'] or (b['op'].startswith('probe') and r[1:] != ['probe', 'create=1', 'assign=1']):
+                return ('world %s does not honour the typed declaration made on it (%s)' % (b['op'].split()[-1], b['crash'] or ' '.join(r[2:])), lines[:i + 1])
+    return None
+
+
 def run(tier, seed, replay=None):
     rng = vlib.Rng(seed)
+    if not replay or any(l.startswith('probe') for l in open(replay)):
+        bad = typed_declaration_in_every_world()
+        if bad or replay:
+            cov = {'rule': 'typed dependency declaration in several worlds of one process', 'evaluations': 1, 'distinct_nontrivial': 1}
+            if not bad:
+                return {'violations': [], 'coverage': cov, 'level': 'proof'}
+            p = vlib.write_replay(PROP, 'failing_script.txt', '# %s\n# world_driver script\n%s\n' % (bad[0], '\n'.join(bad[1])))
+            return {'violations': [(p, '')], 'coverage': cov, 'level': 'proof'}
     n, maxops = (220, 60) if tier == 'quick' else (3000, 250)
     prof = mgr.profile(PROP)
     scripts = mgr.corpus(PROP) + [('g%d' % i, mgr.gen_script(rng.fork(PROP + '-%d' % i), maxops, prof)) for i in range(n)]
